@@ -23,7 +23,7 @@ ASSUMPTIONS = ['"syntactically valid CMAP" = header lines, one row per label plu
                'query ids are unique within a file']
 MINIMUMS = {'runs': {'quick': 500, 'thorough': 8000}, 'cli-runs': {'quick': 40, 'thorough': 600},
             'files-read-back': {'quick': 800, 'thorough': 12000}, 'header-only-files': {'quick': 50, 'thorough': 800},
-            'isolation-comparisons': {'quick': 100, 'thorough': 1500}, 'queries-without-any-seed': {'quick': 100, 'thorough': 1500}}
+            'isolation-comparisons': {'quick': 60, 'thorough': 900}, 'queries-without-any-seed': {'quick': 100, 'thorough': 1500}}
 
 
 def plan(tier, seed):
@@ -32,6 +32,13 @@ def plan(tier, seed):
 
 
 def make_case(rng):
+    if rng.random() < 0.15:
+        case = gen.long_molecule_case(rng, mode=rng.choice(['best', 'joined', 'all', 'best']))
+        case['flavour'] = 'long-multi-indel'
+        case['ordinary'] = []
+        if rng.random() < 0.3:
+            case['params']['d'] = rng.choice([800, 3000])
+        return case
     if rng.random() < 0.25:
         case = gen.pipeline_case(rng, ['noisy', 'chimeric', 'indel', 'partial'], nq=rng.randint(1, 10), param_prob=0.9,
                                  param_keys=('sp', 'dp', 'su', 'd', 'ms', 'bs', 'p', 'sj', 'ss', 'diff', 'r1', 'b1', 'r2', 'b2', 'ma', 'pt'))
